@@ -2,7 +2,7 @@
 // poolsim exploration under small limits, two node configurations:
 //   "_full": max_size_bytes 16000 with the pool pre-filled to 2 kB below the limit, cluster limits 4 txs / 400 vB
 //            (size-limit eviction, rolling minimum fee, cluster size limit);
-//   "_topo": cluster limits 3 (quick) / 4 (thorough) txs and 1500 vB, TRUC parents / children / siblings incl. children
+//   "_topo": cluster limits 3 (quick) / 4 (thorough) txs and 1200 vB, TRUC parents / children / siblings incl. children
 //            padded to exactly 1000 / 1001 vB, ephemeral-dust packages, dust txs with prioritisation, cluster joins.
 // Oracle after every transaction / package acceptance (independent recomputation from infoAll()):
 //   (1) DynamicMemoryUsage() <= max_size_bytes; every connected component of the pool within the configured count and
@@ -257,10 +257,11 @@ int main(int argc, char** argv)
         if (big) { f.classes.insert("J"); f.classes.insert("T"); f.classes.insert("I"); f.classes.insert("R"); f.thr = "e"; f.fees = "mhk"; }
         ps::Opts t; // topology: TRUC, dust, cluster count
         t.max_size_bytes = 60000;
-        t.cluster_size_vbytes = 1500;
+        t.cluster_size_vbytes = 1200;
         t.cluster_count = big ? 4 : 3;
-        t.classes = {"N3", "C", "CV", "PK3", "PE", "D", "P"};
-        t.guarded = false;
+        t.classes = {"N3", "C", "CV", "PK", "PK3", "PE", "D", "P"};
+        t.guarded = true;
+        t.pe_all = big;
         t.fees = "h";
         t.child_fees = "h";
         t.pk_parent = "l"; t.pk_child = "k";
